@@ -146,7 +146,7 @@ Proof.
   destruct (quiescent_all s0 sched Hnr Q c Hc) as [H|(k & c' & _ & _ & _ & _ & Hr & _)].
   - now apply returned_in.
   - exfalso. assert (H : step s RdFail = None) by (apply Q; reflexivity).
-    simpl in H. fold s in Hr. rewrite Hr, Hp in H. discriminate.
+    simpl in H. fold s in Hr. rewrite Hr, Hp in H. destruct (joined s); discriminate.
 Qed.
 
 (* ------------------------------------------------------------------------------------------ *)
@@ -202,8 +202,10 @@ Qed.
 (* Invariant F: other traffic is answered, in order                                            *)
 (* ------------------------------------------------------------------------------------------ *)
 Definition tags (l : list tmsg) : list N := flat_map wants_reply l.
-Definition held (r : rstate) : list tmsg := match r with RJoinWait m | RPush m => [m] | _ => [] end.
-Definition reading (r : rstate) : bool := match r with RRun | RJoinWait _ | RPush _ => true | _ => false end.
+Definition held (r : rstate) : list tmsg :=
+  match r with RJoinWait m | RPush m => [m] | RPushR => [TReissue] | _ => [] end.
+Definition reading (r : rstate) : bool :=
+  match r with RRun | RJoinWait _ | RPush _ | RPushR => true | _ => false end.
 
 Lemma tags_app : forall a b, tags (a ++ b) = tags a ++ tags b.
 Proof. intros; unfold tags; now rewrite flat_map_app. Qed.
@@ -468,15 +470,37 @@ Proof.
 Qed.
 
 Definition invG6 (s : st) (tr : list obs) : Prop :=
-  forall m, In m (inQ s) \/ In m (held (rd s)) \/ In m (buf (msgQ s)) -> In (OSent m) tr.
+  (forall m, In m (inQ s) \/ In m (held (rd s)) \/ In m (buf (msgQ s)) -> In (OSent m) tr) /\
+  (buf (reisQ s) <> [] -> In (OSent TReissue) tr).
 
 Lemma invG6_step : forall s tr c s' o, invG6 s tr -> step s c = Some (s', o) -> invG6 s' (tr ++ o).
 Proof.
-  intros s tr c s' o HG H.
-  destruct c; step_inv H; unfold invG6 in *; sproj; rw_proj s; intros m' Hm;
-    apply in_app_iff; rewrite ?in_app_single in Hm; simpl in *;
+  intros s tr c s' o [HG HR] H.
+  destruct c; step_inv H; unfold invG6 in *; sproj; rw_proj s; (split; [intros m' Hm | intros Hne]);
+    apply in_app_iff; rewrite ?in_app_single in *; simpl in *;
     try solve [left; apply HG; tauto];
+    try solve [left; apply HR; congruence];
+    try solve [left; apply HR; discriminate];
     try solve [intuition (subst; auto)].
+Qed.
+
+(* registration, disconnect and stop as seen in the trace *)
+Lemma reg_of_app : forall a b x, reg_of (a ++ b) x = reg_of b (reg_of a x).
+Proof. induction a as [|y a IH]; intros b x; simpl; auto. destruct y; auto. Qed.
+
+Lemma reg_of_stop : forall l x, reg_of (map (fun p : N * call => OReturn (c_id (snd p)) RNoExist) l) x = x.
+Proof. induction l; simpl; auto. Qed.
+
+Definition invS (s : st) (tr : list obs) : Prop :=
+  registered_after tr = registered s /\
+  (peer_closed s = true -> In OPeerClose tr) /\
+  (conn_closed s = true -> In OStop tr).
+
+Lemma invS_step : forall s tr c s' o, invS s tr -> step s c = Some (s', o) -> invS s' (tr ++ o).
+Proof.
+  intros s tr c s' o (HR & HP & HC) H. unfold invS, registered_after in *. rewrite reg_of_app, HR.
+  destruct c; step_inv H; sproj; rewrite ?reg_of_stop; cbn [reg_of]; rw_proj s;
+    (split; [try reflexivity; try congruence | split; intros Hx; apply in_app_iff; simpl; auto]).
 Qed.
 
 (* ------------------------------------------------------------------------------------------ *)
@@ -493,7 +517,14 @@ Definition just (a : list obs) (x : obs) : Prop :=
          its serial was taken from msgChan *)
       exists k c a1 a2, c_id c = i /\ a = a1 ++ OWrite k c true :: a2 /\ In (OFire i) a2 /\ noseen k a2
   | OReturn i RWriteFail => exists k c a', c_id c = i /\ a = a' ++ [OWrite k c false]
-  | OWrite k c ok => In (OCall c) a /\ ~ In (c_id c) (written a)
+  | OReturn i RNoExist =>
+      (* ErrNotExistKey: the registry does not route the key to this connection at that moment (it never
+         joined, or it has left - which stop() does before anything else) *)
+      registered_after a = false
+  | OWrite k c ok =>
+      In (OCall c) a /\ ~ In (c_id c) (written a) /\
+      (* conn.Write fails only once the terminal is gone or this side has closed the socket *)
+      (ok = false -> In OPeerClose a \/ In OStop a)
   | OReply k m ok => exists a', a = a' ++ [OSeen m]
   | OSeen m => In (OSent m) a
   | _ => True
@@ -520,9 +551,18 @@ Proof.
   simpl in H. tauto.
 Qed.
 
-Lemma justified_stop : forall p l,
+Lemma justified_stop : forall l p, registered_after p = false ->
   justified_from p (map (fun q : N * call => OReturn (c_id (snd q)) RNoExist) l).
-Proof. intros p l; revert p; induction l as [|x l IH]; intros p; simpl; auto. Qed.
+Proof.
+  induction l as [|x l IH]; intros p Hp; simpl; auto. split; auto.
+  apply IH. unfold registered_after in *. rewrite reg_of_app. simpl. exact Hp.
+Qed.
+
+Lemma stopped_not_registered : forall s, invA s -> stop_closed s = true -> registered s = false.
+Proof.
+  intros s HA Hs. destruct (registered s) eqn:E; auto.
+  destruct (a_reg _ HA E) as [H0 _]. apply (a_stop _ HA) in Hs. lia.
+Qed.
 
 Record inv2 (s : st) (tr : list obs) : Prop := {
   j_1 : inv1 s tr;
@@ -530,7 +570,8 @@ Record inv2 (s : st) (tr : list obs) : Prop := {
   j_G1 : invG1 s tr;
   j_D : invD s tr;
   j_G5 : invG5 s tr;
-  j_G6 : invG6 s tr
+  j_G6 : invG6 s tr;
+  j_S : invS s tr
 }.
 
 Lemma head_not_written : forall s tr c l, locC s tr -> invD s tr -> buf (actQ s) = c :: l ->
@@ -547,17 +588,27 @@ Proof. intros tr k c F (a1 & a2 & -> & _). apply in_app_iff. right; left; auto. 
 Lemma just_step : forall s tr c s' o, inv2 s tr -> no_reuse tr -> step s c = Some (s', o) ->
   ~ In OReuse o -> justified_from tr o.
 Proof.
-  intros s tr c s' o [[HA HB Hnc0 HH HC] HG4 HG1 HD [HG5a HG5b] HG6] Hnr0 H Hnr.
+  intros s tr c s' o [[HA HB Hnc0 HH HC] HG4 HG1 HD [HG5a HG5b] [HG6 HG6r] (HSr & HSp & HSc)] Hnr0 H Hnr.
   specialize (HC Hnr0).
   assert (Hnc := step_no_crash _ _ _ _ HA H).
+  assert (Hstopreg : stop_closed s = true -> registered_after tr = false).
+  { intros Hs. rewrite HSr. now apply stopped_not_registered. }
   destruct c; step_inv H; try solve [exfalso; apply Hnc; simpl; tauto];
     try solve [exfalso; apply Hnr; simpl; tauto];
-    try apply justified_stop; rec_norm;
+    try solve [apply justified_stop; auto];
+    rec_norm;
     cbn [justified_from just]; repeat split; auto;
     try solve [apply HG5b; left; reflexivity];
     try solve [eapply head_not_written; eauto];
-    try solve [match goal with Hm : buf (msgQ s) = _ |- _ => apply HG6; right; right; rewrite Hm; left; reflexivity end];
-    try solve [eexists; reflexivity].
+    try solve [apply HG6; right; right; try (match goal with Hm : buf (msgQ s) = _ |- _ => rewrite Hm end); left; reflexivity];
+    try solve [apply HG6r; first [congruence | discriminate]];
+    try solve [intros _; match goal with Hw : peer_closed s || conn_closed s = true |- _ =>
+                 apply orb_true_iff in Hw; destruct Hw; [left; apply HSp | right; apply HSc]; assumption end];
+    try solve [eexists; reflexivity];
+    try solve [intros; discriminate];
+    try solve [congruence];
+    try solve [rewrite HSr; assumption];
+    try solve [apply Hstopreg; apply (a_wr _ HA); congruence].
   - sproj. rewrite lookup_put_same in E3. injection E3 as <-. exists (seq s), c, tr. auto.
   - exists echo, c, tr. repeat split; auto.
     + apply in_app_iff. left. eapply since_write_in. apply HG1. now apply lookup_in.
@@ -583,7 +634,7 @@ Lemma inv3_step : forall s tr c s' o, inv1 s tr -> inv3 s tr -> step s c = Some 
 Proof.
   intros s tr c s' o H1 H3 H. split; [eapply inv1_step; eauto|].
   intros Hnr. apply no_reuse_app in Hnr. destruct Hnr as [Hn1 Hn2].
-  destruct (H3 Hn1) as [H2 HJ]. pose proof H2 as [_ HG4 HG1 HD HG5 HG6].
+  destruct (H3 Hn1) as [H2 HJ]. pose proof H2 as [_ HG4 HG1 HD HG5 HG6 HS].
   pose proof (i_A _ _ H1) as HA. split.
   - constructor.
     + eapply inv1_step; eauto.
@@ -592,6 +643,7 @@ Proof.
     + eapply invD_step; eauto.
     + eapply invG5_step; eauto.
     + eapply invG6_step; eauto.
+    + eapply invS_step; eauto.
   - unfold justified. apply justified_from_app. split; auto. simpl.
     eapply just_step; eauto.
 Qed.
@@ -609,7 +661,8 @@ Proof.
     + intros k c H; destruct H.
     + intros i H; destruct H.
     + split; intros c H; destruct H.
-    + intros m [H|[H|H]]; destruct H.
+    + split; [intros m [H|[H|H]]; destruct H | intros H; exfalso; apply H; reflexivity].
+    + split; [reflexivity | split; intros H; discriminate].
 Qed.
 
 Theorem justified_all : forall s0 sched, let tr := trace step (init s0) sched in
@@ -769,4 +822,135 @@ Proof.
     - split; [reflexivity|]. intros _. split; [|intros []].
       intros k [H|[H|H]]; destruct H. }
   destruct HI as [_ HI]. apply HI. exact Hlen.
+Qed.
+
+(* ------------------------------------------------------------------------------------------ *)
+(* written at least once: the liveness half                                                    *)
+(* ------------------------------------------------------------------------------------------ *)
+Lemma written_in : forall k c ok tr, In (OWrite k c ok) tr -> In (c_id c) (written tr).
+Proof.
+  intros k c ok tr; induction tr as [|x t IH]; simpl; intros H; [tauto|].
+  destruct H as [->|H]; [left; reflexivity|].
+  destruct x; simpl; auto.
+Qed.
+
+(* In a quiescent state every call that was made has had its command handed to the socket - unless it was
+   answered ErrNotExistKey, which (justified) happens only while the registry does not route the key here. *)
+Theorem written_at_least_once_all : forall s0 sched,
+  let s := final step (init s0) sched in let tr := trace step (init s0) sched in
+  no_reuse tr -> quiescent s ->
+  forall c, In (OCall c) tr -> In (c_id c) (written tr) \/ In (OReturn (c_id c) RNoExist) tr.
+Proof.
+  intros s0 sched s tr Hnr Q c Hc.
+  destruct (inv3_all s0 sched) as [_ H3]. destruct (H3 Hnr) as [H2 HJ]. fold tr in HJ. fold s tr in H2.
+  destruct (quiescent_all s0 sched Hnr Q c Hc) as [H|(k & c' & Hin & Hid & _)].
+  - apply returned_in in H. destruct H as [r Hr]. apply in_split in Hr. destruct Hr as (a & b & E).
+    pose proof (justified_split _ _ _ _ HJ E) as Hj. fold tr in E.
+    assert (Hsub : forall i, In i (written a) -> In i (written tr)).
+    { intros i Hi. rewrite E, written_app. apply in_app_iff. now left. }
+    destruct r as [m| | |]; simpl in Hj.
+    + destruct Hj as (k & c1 & a' & Hid & Hw & _). left. apply Hsub. rewrite <- Hid. eapply written_in; eauto.
+    + destruct Hj as (k & c1 & a1 & a2 & Hid & Ha & _). left. apply Hsub. rewrite <- Hid.
+      apply (written_in k c1 true). rewrite Ha. apply in_app_iff. right; left; reflexivity.
+    + destruct Hj as (k & c1 & a' & Hid & Ha). left. apply Hsub. rewrite <- Hid.
+      apply (written_in k c1 false). rewrite Ha. apply in_app_iff. right; left; reflexivity.
+    + right. rewrite E. apply in_app_iff. right; left; reflexivity.
+  - left. rewrite <- Hid. apply (written_in k c' true). eapply since_write_in. apply (j_G1 _ _ H2). exact Hin.
+Qed.
+
+(* ------------------------------------------------------------------------------------------ *)
+(* A quiescent state is reached: from ANY state some schedule of server steps ends in a state   *)
+(* in which no server step is enabled (and by internal_steps_bounded every such schedule is     *)
+(* short)                                                                                       *)
+(* ------------------------------------------------------------------------------------------ *)
+Definition cands (s : st) : list choice :=
+  [MgrStep JOk; RdRead; RdFail; RdPush; RdClose; WStop; WAct true; WAct false; WCpl; WDrain;
+   WReis true; WReis false; WMsg 0 true; WMsg 0 false]
+  ++ flat_map (fun p : N * call => [WMsg (fst p) true; WMsg (fst p) false]) (rec s)
+  ++ flat_map (fun t : nat * N => [TSend (fst t); TQuit (fst t)]) (timers s).
+
+Definition enabledb (s : st) (c : choice) : bool := match step s c with Some _ => true | None => false end.
+Definition quiescentb (s : st) : bool := negb (existsb (enabledb s) (cands s)).
+
+Lemma cands_internal : forall s c, In c (cands s) -> internal c = true.
+Proof.
+  intros s c H. unfold cands in H. rewrite !in_app_iff in H.
+  destruct H as [H|[H|H]].
+  - simpl in H. repeat (destruct H as [<-|H]; [reflexivity|]). destruct H.
+  - apply in_flat_map in H. destruct H as [p [_ [<-|[<-|[]]]]]; reflexivity.
+  - apply in_flat_map in H. destruct H as [p [_ [<-|[<-|[]]]]]; reflexivity.
+Qed.
+
+Lemma in_cands_wmsg : forall s k c w, In (k, c) (rec s) -> In (WMsg k w) (cands s).
+Proof.
+  intros s k c w H. unfold cands. rewrite !in_app_iff. right; left.
+  apply in_flat_map. exists (k, c). split; auto. destruct w; simpl; auto.
+Qed.
+
+Lemma in_cands_timer : forall s i k, In (i, k) (timers s) ->
+  In (TSend i) (cands s) /\ In (TQuit i) (cands s).
+Proof.
+  intros s i k H. unfold cands. rewrite !in_app_iff. split; right; right;
+    apply in_flat_map; exists (i, k); simpl; auto.
+Qed.
+
+Lemma cands_complete : forall s c, internal c = true -> step s c <> None ->
+  exists c', In c' (cands s) /\ step s c' <> None.
+Proof.
+  intros s c Hi Hs. destruct c; try discriminate Hi.
+  - (* MgrStep *) exists (MgrStep JOk). split; [simpl; auto|].
+    simpl in *. unfold step_mgr in *. destruct (mgrQ s) as [|[c| |] q]; auto;
+      destruct (rd s); discriminate.
+  - exists RdRead; split; [simpl; tauto | auto].
+  - exists RdFail; split; [simpl; tauto | auto].
+  - exists RdPush; split; [simpl; tauto | auto].
+  - exists RdClose; split; [simpl; tauto | auto].
+  - exists WStop; split; [simpl; tauto | auto].
+  - exists (WAct wok); split; [destruct wok; simpl; tauto | auto].
+  - (* WMsg *)
+    destruct (lookup pick (rec s)) as [c|] eqn:El.
+    + exists (WMsg pick wok). split; auto. eapply in_cands_wmsg. apply lookup_in; eauto.
+    + exists (WMsg 0 wok). split; [destruct wok; simpl; tauto|].
+      simpl in *. unfold step_wmsg in *.
+      destruct (wr s); auto. destruct (ch_recv (msgQ s)) as [m q| |]; auto.
+      destruct (write_possible s wok); auto.
+      destruct m; auto.
+      destruct (existsb _ (rec s)); [rewrite El in Hs; contradiction | auto].
+  - exists WCpl; split; [simpl; tauto | auto].
+  - exists WDrain; split; [simpl; tauto | auto].
+  - exists (WReis wok); split; [destruct wok; simpl; tauto | auto].
+  - exists (TSend i). split; auto. simpl in Hs.
+    destruct (timer_of i (timers s)) as [k|] eqn:E; [|contradiction].
+    apply timer_of_some_in in E. now apply (in_cands_timer s i k).
+  - exists (TQuit i). split; auto. simpl in Hs.
+    destruct (timer_of i (timers s)) as [k|] eqn:E; [|contradiction].
+    apply timer_of_some_in in E. now apply (in_cands_timer s i k).
+Qed.
+
+Lemma quiescentb_true : forall s, quiescentb s = true -> quiescent s.
+Proof.
+  intros s H c Hi. destruct (step s c) as [p|] eqn:E; auto. exfalso.
+  destruct (cands_complete s c Hi) as [c' [Hin Hs]]; [congruence|].
+  unfold quiescentb in H. apply negb_true_iff in H.
+  assert (existsb (enabledb s) (cands s) = true); [|congruence].
+  apply existsb_exists. exists c'. split; auto. unfold enabledb. destruct (step s c'); congruence.
+Qed.
+
+Theorem quiescent_reached : forall s,
+  exists sched, Forall (fun c => internal c = true) sched /\ quiescent (final step s sched) /\
+                (length sched <= measure s)%nat.
+Proof.
+  intros s. remember (measure s) as n eqn:En. revert s En.
+  induction n as [n IH] using lt_wf_ind. intros s En.
+  destruct (quiescentb s) eqn:Q.
+  - exists []. split; [constructor|]. split; [now apply quiescentb_true | simpl; lia].
+  - unfold quiescentb in Q. apply negb_false_iff in Q. apply existsb_exists in Q.
+    destruct Q as [c [Hin He]]. unfold enabledb in He.
+    destruct (step s c) as [[s' o]|] eqn:E; [|discriminate].
+    pose proof (cands_internal _ _ Hin) as Hi.
+    pose proof (measure_step _ _ _ _ Hi E) as Hm.
+    destruct (IH (measure s') ltac:(lia) s' eq_refl) as (sched & HF & HQ & HL).
+    exists (c :: sched). split; [constructor; auto|]. split.
+    + unfold final in *. simpl. rewrite E. destruct (run step s' sched). exact HQ.
+    + simpl. lia.
 Qed.
